@@ -25,6 +25,7 @@ type c08Scn struct {
 	IDs     []int    `json:"ids"`
 	Version string   `json:"version,omitempty"`
 	Seg     string   `json:"seg,omitempty"`
+	Idx     *int     `json:"idx,omitempty"` // replay: the position the scenario had in its batch (selects the variant exercised)
 	idx     int
 }
 
@@ -46,6 +47,10 @@ func c08Run(s *c08Scn, version, segName string) verdict {
 	reqNo := 0
 	frame := func(id, k int) []byte {
 		pay := fmt.Sprintf(`<rpc-reply xmlns="urn:ietf:params:xml:ns:netconf:base:1.0" message-id="%d"><data><v>%d</v><k>%d</k></data></rpc-reply>`, id, id, k)
+		if k%3 == 2 {
+			// a reply that mentions a subscription (establish-subscription, subscription state): it is still the reply to its request
+			pay = strings.Replace(pay, "</data>", "<subscription-id>7</subscription-id></data>", 1)
+		}
 		if version == "1.1" {
 			return simdev.Frame11([]byte(pay), []int{30, 50})
 		}
@@ -191,6 +196,127 @@ func c08Run(s *c08Scn, version, segName string) verdict {
 		}
 	}
 
+	if v.OK && s.idx%4 == 1 && !strings.Contains(strings.Join(s.Policy, ","), "werr") {
+		// a transient transport error: one Read fails (not end-of-stream), the connection stays usable. The call that is waiting
+		// or the next one may be handed that error; every call after it is answered at once by the server and gets its reply
+		sess.pipe.Lock()
+		sess.srv.HoldEcho = false
+		sess.pipe.Unlock()
+		sess.pipe.FailReadOnce()
+		time.Sleep(3 * time.Millisecond)
+
+		for j := 0; j < 3 && v.OK; j++ {
+			sess.pipe.Lock()
+			before := len(sess.srv.Requests)
+			k := reqNo + 1
+			sess.pipe.Unlock()
+
+			var r *response.NetconfResponse
+
+			var oerr error
+
+			fin, pan := withWatchdog(8*time.Second, func() { r, oerr = sess.d.Get("", opoptions.WithTimeoutOps(3*time.Second)) })
+
+			sess.pipe.Lock()
+			seenID := 0
+			if len(sess.srv.Requests) == before+1 {
+				seenID = sess.srv.Requests[before].MsgID
+			}
+			sess.pipe.Unlock()
+
+			switch {
+			case !fin || pan != nil:
+				fail(&v, "C08:"+version+":after-transient-error:hang-or-panic", "call %d after a transient read error: returned=%v panic=%v", j+1, fin, pan)
+			case j == 0 && oerr != nil:
+				// the error report itself
+			case oerr != nil:
+				fail(&v, "C08:"+version+":after-transient-error:reply-lost", "call %d after a transient read error (one Read failed, the connection is up, the server answered at once): %v", j+1, oerr)
+			default:
+				m := vRe.FindStringSubmatch(r.Result)
+				if m == nil || seenID == 0 || m[1] != fmt.Sprint(seenID) || !strings.Contains(r.Result, fmt.Sprintf("<k>%d</k>", k)) {
+					fail(&v, "C08:"+version+":after-transient-error:foreign-reply", "call %d after a transient read error (message-id %d) returned %q", j+1, seenID, r.Result)
+				}
+			}
+		}
+
+		return v
+	}
+
+	if !v.OK || s.idx%2 != 0 || strings.Contains(strings.Join(s.Policy, ","), "werr") {
+		return v
+	}
+
+	// a second session on the same driver object: what the first one left behind - a late reply that was filed and never
+	// fetched, a reply still on its way - belongs to requests of the first session; every call of the second session gets
+	// the reply to its own request (the server numbers its replies through, <k>, so a reply of the first session is recognised
+	// whatever message-ids the second session uses), and its ids are again strictly increasing
+	sess.pipe.Lock()
+	h := held
+	held = nil
+	sess.srv.HoldEcho = false
+	sess.pipe.Unlock()
+
+	if h != nil {
+		sess.pipe.Inject(h)
+	}
+
+	sess.pipe.WaitDrained(time.Second)
+	time.Sleep(5 * time.Millisecond)
+
+	var rerr error
+
+	fin, pan := withWatchdog(10*time.Second, func() {
+		_ = sess.d.Close()
+		rerr = sess.d.Open()
+	})
+	if !fin || pan != nil || rerr != nil {
+		fail(&v, "C08:"+version+":reopen", "Close and Open on the same driver after the session: returned=%v panic=%v err=%v", fin, pan, rerr)
+
+		return v
+	}
+
+	lastID := 0
+
+	for j := 0; j < s.N+1 && v.OK; j++ {
+		sess.pipe.Lock()
+		before := len(sess.srv.Requests)
+		k := reqNo + 1
+		sess.pipe.Unlock()
+
+		var r *response.NetconfResponse
+
+		var oerr error
+
+		fin, pan := withWatchdog(8*time.Second, func() { r, oerr = sess.d.Get("", opoptions.WithTimeoutOps(4*time.Second)) })
+
+		sess.pipe.Lock()
+		seenID := 0
+		if len(sess.srv.Requests) == before+1 {
+			seenID = sess.srv.Requests[before].MsgID
+		}
+		sess.pipe.Unlock()
+
+		sig := fmt.Sprintf("C08:%s:second-session-after-%s", version, strings.Join(s.Policy, ","))
+
+		switch {
+		case !fin || pan != nil:
+			fail(&v, "C08:"+version+":second-session:hang-or-panic", "call %d of the second session: returned=%v panic=%v", j+1, fin, pan)
+		case seenID == 0:
+			fail(&v, "C08:"+version+":second-session:request-count", "call %d of the second session: the server did not decode exactly one more request", j+1)
+		case seenID <= lastID:
+			fail(&v, "C08:"+version+":second-session:message-id-sequence", "call %d of the second session carries message-id %d after %d", j+1, seenID, lastID)
+		case oerr != nil:
+			fail(&v, sig+":reply-lost", "call %d of the second session: %v although the server answered at once", j+1, oerr)
+		default:
+			m := vRe.FindStringSubmatch(r.Result)
+			if m == nil || m[1] != fmt.Sprint(seenID) || !strings.Contains(r.Result, fmt.Sprintf("<k>%d</k>", k)) {
+				fail(&v, sig+":foreign-reply", "call %d of the second session (message-id %d, request %d of the server's count) returned %q", j+1, seenID, k, r.Result)
+			}
+		}
+
+		lastID = seenID
+	}
+
 	return v
 }
 
@@ -204,6 +330,10 @@ func c08(_ []string) error {
 		}
 
 		s.idx = len(scns)
+		if s.Idx != nil {
+			s.idx = *s.Idx
+		}
+
 		scns = append(scns, s)
 
 		return nil
